@@ -43,6 +43,30 @@ pub fn exec(ctx: &mut Ctx, case: &Case) {
     let s = |i: usize| std::str::from_utf8(case.s(i)).unwrap_or("");
     match case.mon.as_str() {
         "pair" => run_pair(ctx, s(0), s(1)),
+        "alias" => {
+            // values that are views into ONE buffer: every valid prefix (same start address) and
+            // suffix (same end address) of the text against the whole text and against each other
+            let whole = s(0);
+            let bounds: Vec<usize> = whole.char_indices().map(|(i, _)| i).collect();
+            let step = (bounds.len() / 24).max(1);
+            let mut prev: Option<&str> = None;
+            for (j, k) in bounds.iter().enumerate() {
+                if j % step != 0 && j + 3 < bounds.len() && j > 2 { continue; }
+                let pre = &whole[..*k];
+                let suf = &whole[*k..];
+                ctx.evals += 4;
+                run_pair(ctx, pre, whole);
+                run_pair(ctx, whole, pre);
+                run_pair(ctx, suf, whole);
+                if let Some(p) = prev { run_pair(ctx, p, pre); }
+                run_comp(ctx, pre, whole, 1);
+                run_comp(ctx, whole, pre, 1);
+                run_comp(ctx, pre, whole, 5);
+                run_comp(ctx, pre, whole, 3);
+                prev = Some(pre);
+            }
+            ctx.stratum("alias");
+        }
         "comp" => run_comp(ctx, s(0), s(1), case.n[0]),
         "triple" => {
             let (a, b, c) = (s(0), s(1), s(2));
@@ -175,6 +199,12 @@ pub fn generate(ctx: &mut Ctx) {
         }
         bi += 1;
     }
+    for w in ["http://example.org/a/b?q#f", "s://u@h:80/a/../b/./c?x=y#z", "a/b/c", "/a/b/", "//h/p", "s:a:b", "?q#f", "s://h", "x/../y/..", "s://%41/%41?%41#%41", "s://\u{e9}/\u{e9}?\u{e9}#\u{e9}"] {
+        if ctx.mine(bi) {
+            ctx.run(Case::new("alias").arg(w));
+        }
+        bi += 1;
+    }
     for (a, b) in [("http", "http"), ("http", "HTTP"), ("a", "b"), ("a+", "a-")] {
         if ctx.mine(bi) {
             ctx.run(Case::new("comp").arg(a).arg(b).num(7));
@@ -205,6 +235,7 @@ pub fn generate(ctx: &mut Ctx) {
         ctx.run(Case::new("pair").arg(&a).arg(&b));
         ctx.run(Case::new("pair").arg(&a).arg(&d));
         ctx.run(Case::new("pair").arg(&a).arg(&a));
+        if i % 16 == 0 { ctx.run(Case::new("alias").arg(&a)); }
         ctx.run(Case::new("triple").arg(&a).arg(&b).arg(&c));
         // component pairs
         if let (Some(x), Some(y)) = (&p.authority, &q.authority) {
